@@ -81,6 +81,7 @@ class Sim(object):
         self.line_stall = None       # (probability at a pre-emption point, max seconds): stall the thread there instead of yielding
         self.stalls = 0
         self.focus_stall = None      # (function name, probability per line, max seconds)
+        self.focus_hits = 0
         self.fault_counter = None    # SimNet.count, so that scheduler-level faults are reported with the network ones
         self.log_picks = log_picks
         self._prio = {}
@@ -391,6 +392,7 @@ class Sim(object):
         if fs and code.co_name == fs[0] and self.line_rng.random() < fs[1]:
             # focused stall: this run singles out one function; a thread executing it is descheduled at some of its lines
             d = fs[2] * self.line_rng.choice((0.1, 0.3, 1.0))
+            self.focus_hits += 1         # workloads may bind an action to this moment ("shut down while _replace is between two lines")
             self.stalls += 1
             self.preemptions += 1
             self.rec('fault', 'thread stall %s in %s %.4fs' % (t.name, fs[0], d))
